@@ -84,6 +84,21 @@ func checkC10(P *Program, r *Result, tier string) {
 	run := newE1(P, scope, e1Config{IfaceLenEq: []string{"Next", "Peek"}, StrictLen: true, Wrap: true})
 	run.run()
 	reportE1(P, r, run, func(o *e1Obl) (string, bool) { return "NO-PANIC", true })
+	// a complete, well-formed frame is not refused: every length check asks for no more than is then read
+	ntight := 0
+	for _, f := range scope {
+		if f.Blocks == nil {
+			continue
+		}
+		for _, p := range f.Params {
+			if isByteSlice(p.Type()) {
+				ntight += sliceNeeded(P, r, "TIGHT", run.A.fa(f), f, p)
+			}
+		}
+	}
+	if ntight < 3 {
+		r.fatal("expected at least 3 length checks in the header-info readers, found %d", ntight)
+	}
 	fa := run.A.fa(decode)
 	in := decode.Params[1]
 	// the two consuming calls
@@ -743,6 +758,29 @@ func checkC06(P *Program, r *Result, tier string) {
 		r.Funcs[shortName(f)] = true
 		countRule(P, r, run, f, cluster)
 	}
+	// the leaf writers whose reported count the cluster adds up
+	leafSeen := map[*ssa.Function]bool{}
+	for _, f := range cluster {
+		for _, c := range callsIn(f) {
+			cal := c.Common().StaticCallee()
+			if cal == nil || !inRepo(cal) || cal.Blocks == nil || leafSeen[cal] {
+				continue
+			}
+			inCluster := false
+			for _, h := range cluster {
+				if h == cal {
+					inCluster = true
+				}
+			}
+			res := cal.Signature.Results()
+			if inCluster || res.Len() != 2 || !isInteger(res.At(0).Type()) || !isErrorType(res.At(1).Type()) {
+				continue
+			}
+			leafSeen[cal] = true
+			r.Funcs[shortName(cal)] = true
+			countRule(P, r, run, cal, cluster)
+		}
+	}
 	sectionsRule(P, r, wkv)
 	numHeadersRule(P, r, cluster)
 	// decode side
@@ -756,6 +794,17 @@ func checkC06(P *Program, r *Result, tier string) {
 			}
 			return "", false
 		})
+		// what the encoder produced is not refused: the readers' length checks ask for no more than they read
+		for _, f := range dscope {
+			if f.Blocks == nil {
+				continue
+			}
+			for _, p := range f.Params {
+				if isByteSlice(p.Type()) {
+					sliceNeeded(P, r, "DEC-TIGHT", drun.A.fa(f), f, p)
+				}
+			}
+		}
 		// lanes read by Decode
 		dfa := drun.A.fa(decode)
 		var n14 *ssa.Call
@@ -816,6 +865,11 @@ func countRule(P *Program, r *Result, run *e1Run, fn *ssa.Function, cluster []*s
 			switch com.Method.Name() {
 			case "Malloc":
 				return fa.expand(com.Args[0])
+			case "WriteBinary":
+				// all of the payload, or an error (bufiox.Writer contract)
+				if d := fa.sliceDesc(com.Args[0]); d != nil {
+					return d.Len
+				}
 			}
 			return nil
 		}
@@ -892,7 +946,10 @@ func countRule(P *Program, r *Result, run *e1Run, fn *ssa.Function, cluster []*s
 		seen map[*ssa.BasicBlock]int
 	}
 	final := fa.expand(succRet.Results[0])
-	entrySize := fa.expand(fn.Params[0])
+	entrySize := linConst(0) // a leaf writer reports the bytes it emitted itself
+	if len(fn.Params) > 0 && isInteger(fn.Params[0].Type()) {
+		entrySize = fa.expand(fn.Params[0])
+	}
 	paths, bad := 0, ""
 	var walk func(st state)
 	walk = func(st state) {
@@ -918,7 +975,7 @@ func countRule(P *Program, r *Result, run *e1Run, fn *ssa.Function, cluster []*s
 			for i := 0; i < 8; i++ {
 				got = got.substAll(st.sub)
 			}
-			if !got.equal(em) {
+			if !got.equal(em) && !(len(st.sub) == 0 && fa.proveEq(got, em, succRet.Block())) {
 				bad = fmt.Sprintf("a success path returns size−initial = %s but emitted %s", run.A.linString(got), run.A.linString(em))
 			}
 			return
